@@ -345,6 +345,9 @@ def run(ck):
          for r in d.get("iter_state", [])]))
     gen.append("Definition refusals : list refusal_row := %s." % coq_refusals([(r["cls"], r["guards"]) for r in d.get("refusals", [])]))
     gen.append("Definition expected_refusals : list refusal_row := %s." % coq_refusals([(c, g) for c, g, _ in EXPECTED_REFUSALS]))
+    emb = d.get("embed", {"stores": [], "reads": []})
+    gen.append("Definition embed_stores : list place := %s." % coq_list(["(%s, %s)" % (coq_str(k), coq_str(str(n))) for k, n, _ in emb["stores"]]))
+    gen.append("Definition embed_reads : list place := %s." % coq_list(["(%s, %s)" % (coq_str(k), coq_str(str(n))) for k, n, _ in emb["reads"]]))
     gen.append("Definition parsers : list parser_row :=\n  %s." % coq_list(
         ["(%s, %s, %s)" % (coq_str(r["func"]), coq_str(r["ctor"]), coq_list([coq_str(x) for x in r["lax"]]))
          for r in d.get("parsers", [])]))
@@ -377,6 +380,11 @@ def run(ck):
                                            "Lemma refusals_ok : refusals_eqb refusals expected_refusals = true.\nProof. vm_compute. reflexivity. Qed.\n"),
                                   kind="instance")
     inst_ok[("exportHdf5 refusals", "as exercised")] = k
+    k, _ = ck.compile_obligations(ck.gen_v("Inst_C08_embed.v", HEADER + "From Run Require Import Gen_C08.\n"
+                                           "Lemma embed_ok_ok : embed_ok embed_stores embed_reads = true.\nProof. vm_compute. reflexivity. Qed.\n"),
+                                  kind="instance")
+    inst_ok[("embedded xml", "stored where read")] = k
+    ck.extra["embedded_xml_places"] = emb
     ck.extra["exportHdf5_refusals"] = [{"cls": r["cls"], "guards": r["guards"], "line": r["line"]} for r in d.get("refusals", [])]
     ck.extra["xml_parser_constructions"] = d.get("parsers", [])
     ck.extra["document_iterators"] = d.get("iter_state", [])
@@ -388,6 +396,7 @@ def run(ck):
                         "Lemma iter_state_ok : iter_ok iter_state = true.\nProof. vm_compute. reflexivity. Qed.\n"
                         "Lemma parser_strict_ok : parser_strict parsers = true.\nProof. vm_compute. reflexivity. Qed.\n"
                         "Lemma refusals_ok : refusals_eqb refusals expected_refusals = true.\nProof. vm_compute. reflexivity. Qed.\n"
+                        "Lemma embed_ok_ok : embed_ok embed_stores embed_reads = true.\nProof. vm_compute. reflexivity. Qed.\n"
                         "Lemma all_present : map fst (map fst entries) = %s.\nProof. reflexivity. Qed.\n"
                         % coq_list([coq_str(n + ":" + m) for n, m in allmodes]))
         iok, _ = ck.compile_obligations(inst, kind="instance")
